@@ -42,6 +42,12 @@ func cmdTry(args []string) int {
 		sets = append(sets, genRandomStreams(r, "random-streams", 3000, fullKnobs(), ""))
 	case "malformed":
 		sets = append(sets, genMalformed(r, 5000))
+	case "enc":
+		sets = append(sets, genFiles(r, "files", "enc", 1500, fileKnobs{maxGroup: 6, fieldPct: 30}))
+	case "rt":
+		sets = append(sets, genFiles(r, "files-in-domain", "rt", 1500, fileKnobs{inDomain: true, maxGroup: 6, fieldPct: 30}))
+	case "alone":
+		sets = append(sets, genEveryFieldAlone(r, "rt", fileKnobs{inDomain: true}))
 	case "wire":
 		sets = append(sets, genWire(r, 3000))
 	case "ts":
